@@ -252,7 +252,7 @@ func c20Data(rng *rand.Rand, n int) []float64 {
 		xs[i] = float64(rng.Intn(2*n+3)) / 4
 	}
 	// make sure it is not sorted (n >= 3)
-	if n >= 3 && sort.Float64sAreSorted(xs) {
+	if n >= 2 && sort.Float64sAreSorted(xs) {
 		xs[0], xs[n-1] = xs[n-1]+1, xs[0]-1
 	}
 	return houseF(rng, xs)
@@ -986,9 +986,11 @@ func hashU(r []uint64) uint64 {
 
 // c20FreshRef runs the case in a fresh child process (one per case, so the child has no
 // history whatsoever) and returns the hash of its result.
-var c20FreshRef = func(raw []byte) (uint64, error) {
+// mode "1": the case's call as the first call of the process; mode "2": the argument arrays
+// are first overwritten with the second contents (the scramblers), then the call is made
+var c20FreshRef = func(raw []byte, mode string) (uint64, error) {
 	cmd := exec.Command(os.Args[0], "run", "C20")
-	cmd.Env = append(os.Environ(), "C20_FRESH=1")
+	cmd.Env = append(os.Environ(), "C20_FRESH="+mode)
 	cmd.Stdin = bytes.NewReader(append(append([]byte{}, raw...), '\n'))
 	out, err := cmd.Output()
 	if err != nil {
@@ -1067,7 +1069,45 @@ func c20Uncovered() (api []apiFunc, uncovered []apiFunc, err error) {
 
 // "@api" (the scan itself) and "@unlisted:<name>" cases: pseudo-routine 30; det = 0 reports an
 // exported function/method in the property's domain that no table entry exercises
+// "@warmup" (emitted first when C20_CONC_FIRST=1, i.e. in the -race twin): the FIRST use of
+// every table entry in this process is made by 16 goroutines at once, at three sizes, before
+// any sequential call has been made - so an unsynchronised lazy initialisation anywhere below
+// the API is executed concurrently and the race detector sees it.  det = all goroutines of an
+// entry returned the same result.
+func c20RunWarmup() (*Line, error) {
+	ok := true
+	for ti := range c20Table {
+		for _, size := range []int{4, 12, 60} {
+			c20CapMode = 0
+			fac := c20Table[ti].build(rand.New(rand.NewSource(int64(1000*ti+size))), size)
+			insts := make([]*c20Inst, c20Threads)
+			for i := range insts {
+				insts[i] = fac()
+			}
+			res := make([][]uint64, c20Threads)
+			var wg sync.WaitGroup
+			for i := range insts {
+				wg.Add(1)
+				go func(i int) { defer wg.Done(); res[i] = c20Call1(insts[i]) }(i)
+			}
+			wg.Wait()
+			for i := range res {
+				if !eqU(res[i], res[0]) {
+					ok = false
+					fmt.Fprintf(os.Stderr, "[C20] warm-up: concurrent first calls of %s (size %d) disagree\n", c20Table[ti].name, size)
+				}
+			}
+		}
+	}
+	l := &Line{}
+	l.I(20).I(30).I(0).B(true).B(ok).I(len(c20Table)).Int(0).I(3)
+	return l, nil
+}
+
 func c20RunAPI(c c20Case) (*Line, error) {
+	if c.Call == "@warmup" {
+		return c20RunWarmup()
+	}
 	api, unc, err := c20Uncovered()
 	if err != nil {
 		return nil, fmt.Errorf("API scan failed: %v", err)
@@ -1099,7 +1139,7 @@ func c20Run(raw []byte) (*Line, error) {
 	if call == nil {
 		return nil, fmt.Errorf("unknown call %q", c.Call)
 	}
-	if c.Size < 3 || c.Size > 400 {
+	if c.Size < 1 || c.Size > 400 {
 		return nil, fmt.Errorf("bad size")
 	}
 	mk := func() func() *c20Inst { return call.build(rand.New(rand.NewSource(c.Seed)), c.Size) }
@@ -1115,12 +1155,35 @@ func c20Run(raw []byte) (*Line, error) {
 	if len(inst.args) != call.nargs {
 		return nil, fmt.Errorf("table error: %s tracks %d arrays, routine has %d", call.name, len(inst.args), call.nargs)
 	}
+	// C20_CONC_FIRST=1 (set for the -race twin): the very first use of the routine in this
+	// case happens CONCURRENTLY, on instances of their own, so that an unsynchronised lazy
+	// initialisation is exercised by several goroutines at once
+	var early [][]uint64
+	if os.Getenv("C20_CONC_FIRST") == "1" {
+		efac := mk()
+		einst := make([]*c20Inst, c20Threads)
+		for i := range einst {
+			einst[i] = efac()
+		}
+		early = make([][]uint64, c20Threads)
+		var ewg sync.WaitGroup
+		for i := range einst {
+			ewg.Add(1)
+			go func(i int) { defer ewg.Done(); early[i] = c20Call1(einst[i]) }(i)
+		}
+		ewg.Wait()
+	}
 	before := make([][]uint64, len(inst.args))
 	for i, a := range inst.args {
 		before[i] = a()
 	}
+	if os.Getenv("C20_FRESH") == "2" {
+		for _, sc := range scramblers {
+			sc()
+		}
+	}
 	r1 := c20Call1(inst)
-	if os.Getenv("C20_FRESH") == "1" {
+	if os.Getenv("C20_FRESH") != "" {
 		// reference mode: this process has made no other call; report only a hash of the result
 		l := &Line{}
 		l.I(20).U(hashU(r1))
@@ -1154,6 +1217,14 @@ func c20Run(raw []byte) (*Line, error) {
 			sc()
 		}
 		det = eqU(r2, c20Call1(ref))
+		// ... and what a FRESH process computes for the second contents
+		if det && c20FreshRef != nil && os.Getenv("C20_NOFRESH") != "1" {
+			h, err := c20FreshRef(raw, "2")
+			if err != nil {
+				return nil, err
+			}
+			det = h == hashU(r2)
+		}
 		for _, un := range restore {
 			un()
 		}
@@ -1161,7 +1232,7 @@ func c20Run(raw []byte) (*Line, error) {
 	}
 	// ... and the result must be what a FRESH process (no call made before) computes
 	if det && c20FreshRef != nil && os.Getenv("C20_NOFRESH") != "1" {
-		h, err := c20FreshRef(raw)
+		h, err := c20FreshRef(raw, "1")
 		if err != nil {
 			return nil, err
 		}
@@ -1218,6 +1289,11 @@ func c20Run(raw []byte) (*Line, error) {
 	wg.Wait()
 	runtime.GOMAXPROCS(oldProcs)
 	conc := true
+	for i := range early {
+		if !eqU(early[i], r1) {
+			conc = false
+		}
+	}
 	for i := range res {
 		if !eqU(res[i], r1) {
 			conc = false
@@ -1250,6 +1326,9 @@ func c20Gen(tier string, rng *rand.Rand, emit func(interface{})) {
 		}
 		return
 	}
+	if os.Getenv("C20_CONC_FIRST") == "1" {
+		emit(c20Case{Call: "@warmup", Size: 3})
+	}
 	emit(c20Case{Call: "@api", Size: len(api)})
 	for _, u := range unc {
 		emit(c20Case{Call: "@unlisted:" + u.Name, Size: 3})
@@ -1263,6 +1342,9 @@ func c20Gen(tier string, rng *rand.Rand, emit func(interface{})) {
 			size := 3 + rng.Intn(30)
 			if r%3 == 2 {
 				size = 30 + rng.Intn(120)
+			}
+			if r == 3 || r == 4 {
+				size = 5 - r // 2 and 1: the smallest inputs, special-cased paths
 			}
 			emit(c20Case{Call: c.name, Seed: rng.Int63(), Size: size, Cap: (r + 2) % 3})
 			if strings.HasPrefix(c.name, "mathx.") { // scalar calls are cheap: many more parameter draws
